@@ -38,11 +38,12 @@ static void omp_case(int kind) {
 
 /* factorisations whose Four-Russians base case has more than 512 rows below a pivot block (its row loops are where an
  * OpenMP work-sharing construct would go), tall and narrow so that the trace validation stays cheap */
-static void omp_ple_case(int which) {
+static void omp_ple_case(int which, int dense) {
   vh_ev_t e;
   int m = vh_pick((int[]){700, 1100, 1300}, 3), n = vh_pick((int[]){40, 70, 100, 130}, 4);
   mzd_t *A = vh_new(m, n);
-  vh_fill_profile(A, vh_pick((int[]){0, 0, 1, 2}, 4));
+  /* dense: every block has full rank, so all rows below the lazily eliminated ones go through the table look-ups */
+  if (dense) vh_fill_dense(A); else vh_fill_profile(A, vh_pick((int[]){1, 2, 3}, 3));
   mzp_t *P = mzp_init(m), *Q = mzp_init(n);
   int k = vh_pick((int[]){0, 3, 5, 8}, 4);
   static const char *nm[] = {"ple", "pluq", "_ple_russian", "_pluq_russian"};
@@ -95,11 +96,11 @@ int fam_omp(const vh_args_t *a) {
     VH_CASE_END
   }
   long sidx = ncases;
-  for (int rep = 0; rep < (a->tier ? 12 : 4); rep++, sidx++) {
+  for (int rep = 0; rep < (a->tier ? 16 : 6); rep++, sidx++) {
     if (!VH_SHARD(a, sidx)) continue;
     vh_case_seed(a, sidx);
     VH_CASE(sidx)
-    omp_ple_case(rep % 4);
+    omp_ple_case(rep % 4, rep % 3 != 2);
     VH_CASE_END
   }
   for (int rep = 0; rep < (a->tier ? 4 : 1); rep++)
